@@ -21,5 +21,6 @@ GRAMMARS = [
 
 def plan(ctx):
     N = 3 if ctx.quick() else 4
-    configs = ['plain', 'plain_nu', 'void', 'bool', 'bool_nu', 'void0', 'bool0']
-    return evplan.queries(ctx, 'c08', GRAMMARS, configs, N)
+    if ctx.quick():
+        return evplan.queries(ctx, 'c08', GRAMMARS, ['plain', 'plain_nu', 'bool', 'bool0'], N, modes=('ar', 'ao'))
+    return evplan.queries(ctx, 'c08', GRAMMARS, ['plain', 'plain_nu', 'void', 'void_nu', 'bool', 'bool_nu', 'void0', 'bool0'], N, modes=('ar', 'ao', 'nr', 'no'))
